@@ -3,6 +3,7 @@ package checks
 import (
 	"fmt"
 	"strings"
+	"sync"
 
 	"github.com/diskfs/go-diskfs/filesystem/iso9660"
 	"github.com/diskfs/go-diskfs/filesystem/squashfs"
@@ -82,7 +83,8 @@ func tableAllowed(c *tblCase) []memdev.Range {
 }
 
 func C03(r *ev.Run) {
-	t := runFatScens(r, c03Scens(r.Quick()), false)
+	// the three cheap enumerations run first so that the time budget of the history exploration can never starve them
+	extraClasses := map[string]int64{}
 	// ---- finalize of ISO9660 / squashfs images placed at start > 0
 	var fin, finOK int64
 	tree := &treeSpec{Dirs: []string{"d", "d/e"}, Files: map[string][]byte{"a.txt": patternBytes(1, 10), "d/b.bin": patternBytes(2, 2048), "d/e/c.bin": patternBytes(3, 5000), "z": nil}}
@@ -107,7 +109,7 @@ func C03(r *ev.Run) {
 				}
 			}
 			if err != nil && d == nil {
-				t.classes["finalize-refused:"+kind]++
+				extraClasses["finalize-refused:"+kind]++
 				continue
 			}
 			if len(d.Outside) > 0 {
@@ -193,8 +195,37 @@ func C03(r *ev.Run) {
 		}
 		tblOK++
 	}
+	// ---- writing partition contents changes only bytes of that partition (the C13 geometries and reader shapes, judged
+	// here only by the write monitor and the byte comparison outside the partition)
+	var pio, pioOK int64
+	pcases := enumC13(r.Quick())
+	var pmu sync.Mutex
+	parallel(len(pcases), r.OutOfTime, func(i int) {
+		c := &pcases[i]
+		if c.Op != "write" || c.Sectors > 1<<20 {
+			return
+		}
+		sig, msg, out := runPartioCase(c)
+		pmu.Lock()
+		defer pmu.Unlock()
+		if out == "n/a" || strings.HasPrefix(out, "setup") {
+			return
+		}
+		pio++
+		if strings.Contains(sig, "outside") {
+			r.Report("c03|partition-contents|"+strings.TrimPrefix(sig, "write|"), msg, c)
+			return
+		}
+		pioOK++
+	})
 	_ = gpt.Unused
+	t := runFatScens(r, c03Scens(r.Quick()), false)
+	for k, v := range extraClasses {
+		t.classes[k] += v
+	}
 	t.write(r)
+	r.Set("partition_content_cases", pio)
+	r.Set("partition_content_cases_inside_partition", pioOK)
 	r.Set("finalize_cases", fin)
 	r.Set("finalize_cases_inside_range", finOK)
 	r.Set("table_cases", tbl)
